@@ -10,4 +10,7 @@ open Strengths.Gen.PyNumeric
 limited number of digits (the model computes its values exactly and its texts through `repr`) -/
 theorem rdnetwork_full_precision : fullPrecision inv_rdnetwork = true := by decide +kernel
 
+/-- `rdnetwork.py` takes no maximum / minimum / absolute value and swallows no exception: nothing it computes is clamped -/
+theorem rdnetwork_no_clamping : clamp_rdnetwork = [] := by decide +kernel
+
 end Strengths.PyNumeric
